@@ -459,10 +459,24 @@ func c11Template(r *verifkit.Rand) *stdx509.Certificate {
 		sn.SetInt64(1)
 	}
 	t.SerialNumber = sn
-	years := []int{1951, 1999, 2000, 2024, 2049, 2050, 2051, 2100, 9999}
+	years := []int{1949, 1950, 1950, 1951, 1999, 2000, 2024, 2049, 2049, 2050, 2051, 2100, 9999}
 	y1 := years[r.Intn(len(years))]
 	t.NotBefore = time.Date(y1, time.Month(1+r.Intn(12)), 1+r.Intn(28), r.Intn(24), r.Intn(60), r.Intn(60), 0, time.UTC)
 	t.NotAfter = t.NotBefore.AddDate(r.Intn(60), r.Intn(12), r.Intn(28))
+	// both edges of the UTCTime window (1950-01-01 .. 2049-12-31) and their GeneralizedTime neighbours
+	edges := []time.Time{time.Date(1949, 12, 31, 23, 59, 59, 0, time.UTC), time.Date(1950, 1, 1, 0, 0, 0, 0, time.UTC), time.Date(1950, 6, 15, 12, 30, 45, 0, time.UTC),
+		time.Date(1950, 12, 31, 23, 59, 59, 0, time.UTC), time.Date(1951, 1, 1, 0, 0, 0, 0, time.UTC), time.Date(1999, 12, 31, 23, 59, 59, 0, time.UTC), time.Date(2000, 1, 1, 0, 0, 0, 0, time.UTC),
+		time.Date(2049, 12, 31, 23, 59, 59, 0, time.UTC), time.Date(2050, 1, 1, 0, 0, 0, 0, time.UTC)}
+	switch r.Intn(4) {
+	case 0:
+		t.NotBefore = edges[r.Intn(len(edges))]
+		if !t.NotAfter.After(t.NotBefore) {
+			t.NotAfter = t.NotBefore.AddDate(1, 0, 0)
+		}
+	case 1:
+		i := r.Intn(len(edges))
+		t.NotBefore, t.NotAfter = edges[i], edges[i+r.Intn(len(edges)-i)]
+	}
 	if t.NotAfter.Year() > 9999 {
 		t.NotAfter = time.Date(9999, 12, 31, 23, 59, 59, 0, time.UTC)
 	}
@@ -930,6 +944,33 @@ func TestVerifC11(t *testing.T) {
 		}
 	}
 
+	// ---- certificates without any OPTIONAL part (no extensions, no unique ids; Ed25519: no algorithm parameters) and with
+	//      unique ids, for the ordered pairs of the concatenation law
+	var bare, withUID [][]byte
+	for i := 0; i < 6; i++ {
+		tmpl := &stdx509.Certificate{SerialNumber: big.NewInt(int64(1000 + i)), Subject: stdpkix.Name{CommonName: fmt.Sprintf("bare-%d", i)},
+			NotBefore: time.Date(2020+i, 1, 2, 3, 4, 5, 0, time.UTC), NotAfter: time.Date(2030+i, 1, 2, 3, 4, 5, 0, time.UTC)}
+		var signer interface{} = edSigner
+		if i%2 == 1 && rsaSigner != nil {
+			signer = rsaSigner
+			tmpl.SignatureAlgorithm = stdx509.SHA256WithRSA
+		}
+		der, err := stdx509.CreateCertificate(c11Reader{r}, tmpl, &stdx509.Certificate{Subject: stdpkix.Name{CommonName: "plain issuer"}}, edSigner.Public(), signer)
+		if err != nil {
+			continue
+		}
+		bare = append(bare, der)
+		oneCert(der, "generated-bare")
+		// the same certificate with issuerUniqueID [1] and subjectUniqueID [2] spliced into the TBS (signature no longer valid: irrelevant here)
+		if roots, ok := c11ParseSeq(der, 3); ok && len(roots) == 1 && len(roots[0].kids) == 3 && roots[0].kids[0].kids != nil {
+			tbs := roots[0].kids[0]
+			tbs.kids = append(append([]*c11Node(nil), tbs.kids...), &c11Node{id: []byte{0x81}, content: []byte{0x00, 0xaa, byte(i)}}, &c11Node{id: []byte{0x82}, content: []byte{0x04, 0xf0}})
+			u := roots[0].encode()
+			withUID = append(withUID, u)
+			oneCert(u, "generated-uniqueid")
+		}
+	}
+
 	// ---- (a) testdata + mutations
 	for _, c := range corpus.certs {
 		oneCert(c, "testdata")
@@ -948,8 +989,59 @@ func TestVerifC11(t *testing.T) {
 	// ---- (c) concatenations
 	nCat := verifkit.N(150, 5000)
 	nF7 := 0
-	for i := 0; i < nCat && len(pool) > 0; i++ {
+	// ordered pairs first: (rich, bare), (unique ids, bare), (RSA-signed = with algorithm parameters, Ed25519-signed = without), both orders, and a few triples
+	var ordered [][]int
+	addPool := func(der []byte) int {
+		for i, p := range pool {
+			if bytes.Equal(p, der) {
+				return i
+			}
+		}
+		cert, laxed, rest, ok := c11Envelope(der)
+		if !ok || len(rest) != 0 {
+			return -1
+		}
+		inner, _ := c11InnerClass(cert)
+		pool = append(pool, der)
+		poolInner = append(poolInner, inner)
+		poolLax = append(poolLax, laxed)
+		return len(pool) - 1
+	}
+	var richIdx, bareIdx, uidIdx []int
+	for i, g := range generated {
+		if i < 12 {
+			if x := addPool(g); x >= 0 {
+				richIdx = append(richIdx, x)
+			}
+		}
+	}
+	for _, b := range bare {
+		if x := addPool(b); x >= 0 {
+			bareIdx = append(bareIdx, x)
+		}
+	}
+	for _, u := range withUID {
+		if x := addPool(u); x >= 0 {
+			uidIdx = append(uidIdx, x)
+		}
+	}
+	for _, a := range append(append([]int(nil), richIdx...), uidIdx...) {
+		for j, b := range bareIdx {
+			if j < 3 {
+				ordered = append(ordered, []int{a, b}, []int{b, a}, []int{a, b, a, b})
+			}
+		}
+	}
+	for i := 0; i+1 < len(bareIdx); i++ {
+		ordered = append(ordered, []int{bareIdx[i], bareIdx[i+1]}, []int{bareIdx[i+1], bareIdx[i]})
+	}
+	for i := 0; i < nCat+len(ordered) && len(pool) > 0; i++ {
 		k := 1 + r.Intn(4)
+		var fixedPick []int
+		if i < len(ordered) {
+			fixedPick = ordered[i]
+			k = len(fixedPick)
+		}
 		var cat []byte
 		var desc []string
 		exp := c11Out{obj: true}
@@ -959,6 +1051,9 @@ func TestVerifC11(t *testing.T) {
 		var picks []int
 		for j := 0; j < k; j++ {
 			x := r.Intn(len(pool))
+			if fixedPick != nil {
+				x = fixedPick[j]
+			}
 			picks = append(picks, x)
 			if poolLax[x] {
 				anyLax = "lax-piece "
@@ -1006,7 +1101,13 @@ func TestVerifC11(t *testing.T) {
 					} else if o2, ok := c11Sub(cat, gotCerts[j].Raw); !ok || o2 != off {
 						out.Fail(fmt.Sprintf("concat-piece %d/%d %s", j, k, verifkit.Hex(cat)), "Raw of the result does not alias the concatenation at the piece's offset")
 					} else if alone == nil || !reflect.DeepEqual(gotCerts[j], alone) {
-						out.Fail(fmt.Sprintf("concat-piece %d/%d %s", j, k, verifkit.Hex(cat)), "certificate differs from ParseCertificate on the piece alone")
+						detail := "certificate differs from ParseCertificate on the piece alone"
+						if alone != nil {
+							detail += fmt.Sprintf(": in the concatenation %d extensions, KeyUsage=%d, IsCA=%v, DNSNames=%v, unique-id-bearing TBS=%v; alone %d extensions, KeyUsage=%d, IsCA=%v, DNSNames=%v",
+								len(gotCerts[j].Extensions), gotCerts[j].KeyUsage, gotCerts[j].IsCA, gotCerts[j].DNSNames, len(gotCerts[j].RawTBSCertificate) != len(alone.RawTBSCertificate),
+								len(alone.Extensions), alone.KeyUsage, alone.IsCA, alone.DNSNames)
+						}
+						out.Fail(fmt.Sprintf("concat-piece %d/%d %s", j, k, verifkit.Hex(cat)), detail)
 					}
 					off += len(pool[x])
 				}
